@@ -12,7 +12,7 @@ Headline theorems about the model `Irismod.Farm` (every state, every operation, 
   collector shortfall (F-farm-1), the F-farm-2 class, or a decimal-range panic
   (`unstake_ok_partial`).
 -/
-import Irismod.Proofs.FarmRun
+import Irismod.Proofs.FarmWitness
 
 namespace Irismod.Props.C05
 open Irismod Irismod.Sdk Irismod.Farm Irismod.Spec Irismod.Spec.C05 Irismod.Proofs.Farm
@@ -76,21 +76,6 @@ theorem principal_covered_partial (s0 : State) (ops : List Op) (hg : Genesis s0)
     (hc : Clean s0 ops) : PrincipalCovered (run s0 ops) :=
   principal_covered_of_inv (inv_run ops s0 (inv_genesis hg hh) hc)
 
-/-- the F-farm-2 history: btc/eth 5 each at 1/block from height 10; the creator tops up 10 btc
-in the end block (height 15); the chain runs on to the new end height 25 -/
-def w2Genesis : State :=
-  { height := 10,
-    bank := { bal := [(("A0", "btc"), 1000), (("A0", "eth"), 1000), (("A0", "stake"), 10000), (("A1", "lpt-1"), 10)] } }
-
-def w2Ops : List Op :=
-  [.createPool "A0" "d1" "lpt-1" 10 [("btc", 1), ("eth", 1)] [("btc", 5), ("eth", 5)] true,
-   .stake "A1" "farm-1" "lpt-1" 2, .endBlocks 5,
-   .adjustPool "A0" "farm-1" (some [("btc", 10)]) none, .endBlocks 11]
-
-theorem w2_genesis : Genesis w2Genesis := by
-  refine ⟨rfl, rfl, rfl, rfl, rfl, ?_, ?_⟩ <;> intro d <;>
-    simp [w2Genesis, Bank.balOf, AMap.getD, AMap.get?, farmAcc, collectorAcc]
-
 set_option maxRecDepth 100000 in
 /-- **C05(b) is false without the exclusion**: after the F-farm-2 history the EndBlocker's
 failed refund has written the btc rule without moving the coins — the module account holds
@@ -102,22 +87,6 @@ theorem module_account_can_fail : ¬ (∀ s, Reachable s → ModuleAccount s) :=
   decide
 
 /-! ### (d) the full statement is false: witness F-farm-1 -/
-
-/-- the F-farm-1 history: reward 1/block; A1 stakes 2; one block later A1 unstakes 1 and A2
-stakes 1; one block later A1 harvests -/
-def w1Genesis : State :=
-  { height := 10,
-    bank := { bal := [(("A0", "btc"), 1000), (("A0", "stake"), 10000), (("A1", "lpt-1"), 10), (("A2", "lpt-1"), 10)] } }
-
-def w1Ops : List Op :=
-  [.createPool "A0" "d1" "lpt-1" 10 [("btc", 1)] [("btc", 100)] true,
-   .stake "A1" "farm-1" "lpt-1" 2, .endBlocks 1,
-   .unstake "A1" "farm-1" "lpt-1" 1, .stake "A2" "farm-1" "lpt-1" 1, .endBlocks 1,
-   .harvest "A1" "farm-1"]
-
-theorem w1_genesis : Genesis w1Genesis := by
-  refine ⟨rfl, rfl, rfl, rfl, rfl, ?_, ?_⟩ <;> intro d <;>
-    simp [w1Genesis, Bank.balOf, AMap.getD, AMap.get?, farmAcc, collectorAcc]
 
 set_option maxRecDepth 100000 in
 /-- **C05(d) is false of the code**: A2's withdrawal of his own recorded stake is rejected
